@@ -254,4 +254,49 @@ theorem eval_pack (ds : List Decl) (env : Env) (hwf : WF ds env) (d : Decl) (hd 
     simp only [substValue, transpose, reshape, vertcat, Mat.mk.injEq, true_and]
     exact hdata
 
+/-- expressions of the unexpanded model: every symbol is declared, no packed scalars yet -/
+def Closed (ds : List Decl) : Expr → Prop
+  | .var n => ∃ d ∈ ds, d.name = n
+  | .pack _ _ _ => False
+  | .el e _ => Closed ds e
+  | .const _ => True
+  | .add a b => Closed ds a ∧ Closed ds b
+  | .sub a b => Closed ds a ∧ Closed ds b
+  | .emul a b => Closed ds a ∧ Closed ds b
+  | .smul _ a => Closed ds a
+  | .neg a => Closed ds a
+
+
+/-! ### example data: `Real w[2,2]; Real z;` with `w = [[1,2],[3,4]]` (stored 1,3,2,4), `z = 5` -/
+def exW : Decl := ⟨['w'], [], [['w']], [], [some [2, 2]]⟩
+def exZ : Decl := ⟨['z'], [], [['z']], [], [none]⟩
+def exDecls : List Decl := [exW, exZ]
+def exEnv : Env := fun n =>
+  if n = ['w'] then some ⟨2, 2, [1, 3, 2, 4]⟩ else if n = ['z'] then some ⟨1, 1, [5]⟩ else none
+/-- `w .* w - z` -/
+def exEq : Expr := .sub (.emul (.var ['w']) (.var ['w'])) (.var ['z'])
+
+theorem exWF : WF exDecls exEnv := by
+  refine ⟨?_, ?_, ?_, ?_, ?_⟩
+  · intro d1 h1 d2 h2 e
+    simp only [exDecls, exW, exZ, List.mem_cons, List.mem_nil_iff, or_false] at h1 h2
+    rcases h1 with rfl | rfl <;> rcases h2 with rfl | rfl <;> simp_all
+  · intro d h
+    simp only [exDecls, exW, exZ, List.mem_cons, List.mem_nil_iff, or_false] at h
+    rcases h with rfl | rfl <;> rfl
+  · intro d h
+    simp only [exDecls, exW, exZ, List.mem_cons, List.mem_nil_iff, or_false] at h
+    rcases h with rfl | rfl <;> rfl
+  · intro d h
+    simp only [exDecls, exW, exZ, List.mem_cons, List.mem_nil_iff, or_false] at h
+    rcases h with rfl | rfl <;> simp [NoBr]
+  · intro d h
+    simp only [exDecls, exW, exZ, List.mem_cons, List.mem_nil_iff, or_false] at h
+    rcases h with rfl | rfl
+    · exact ⟨⟨2, 2, [1, 3, 2, 4]⟩, by decide, by decide, by decide, by decide⟩
+    · exact ⟨⟨1, 1, [5]⟩, by decide, by decide, by decide, by decide⟩
+
+theorem exClosed : Closed exDecls exEq :=
+  ⟨⟨⟨exW, by simp [exDecls], rfl⟩, ⟨exW, by simp [exDecls], rfl⟩⟩, ⟨exZ, by simp [exDecls], rfl⟩⟩
+
 end PymocaVerif.VecExpand
